@@ -36,18 +36,34 @@ theorem lookup_erase (k k' : Ident) (l : List (Ident × Nat)) :
 theorem upd_other (f : Nat → Cache) (c i : Nat) (v : Cache) (h : i ≠ c) : upd f c v i = f i := by simp [upd, h]
 theorem upd_apply (f : Nat → Cache) (c i : Nat) (v : Cache) : upd f c v i = if i = c then v else f i := rfl
 
-theorem cancelPending_task {s : St} {c : Nat} (h : (s.caches c).task.isSome = true) :
-    cancelPending s c = { s with caches := upd s.caches c { s.caches c with task := none } } := by
-  simp [cancelPending, h]
+theorem cancelPending_caches (s : St) (c : Nat) :
+    (cancelPending s c).caches = upd s.caches c { s.caches c with task := none } := by
+  unfold cancelPending; repeat' split
+  all_goals rfl
+theorem cancelPending_ids (s : St) (c : Nat) : (cancelPending s c).ids = s.ids := by
+  unfold cancelPending; repeat' split
+  all_goals rfl
+theorem cancelPending_n (s : St) (c : Nat) : (cancelPending s c).n = s.n := by
+  unfold cancelPending; repeat' split
+  all_goals rfl
+theorem cancelPending_shutdown (s : St) (c : Nat) : (cancelPending s c).shutdown = s.shutdown := by
+  unfold cancelPending; repeat' split
+  all_goals rfl
+theorem cancelPending_running (s : St) (c : Nat) : (cancelPending s c).running = s.running := by
+  unfold cancelPending; repeat' split
+  all_goals rfl
+theorem cancelPending_now (s : St) (c : Nat) : (cancelPending s c).now = s.now := by
+  unfold cancelPending; repeat' split
+  all_goals rfl
 
 /-! ### the invariant -/
 
 structure Inv (s : St) : Prop where
   idsOk : ∀ k c, lookup k s.ids = some c →
-    c < s.n ∧ (s.caches c).ident = k ∧ (s.caches c).task.isSome = true
+    c < s.n ∧ (s.caches c).ident = k ∧ (s.shutdown = false → (s.caches c).task.isSome = true)
   taskOk : ∀ c, (s.caches c).task.isSome = true → lookup (s.caches c).ident s.ids = some c
   runOk : ∀ c, s.running = some c → c < s.n
-  sdOk : s.shutdown = true → s.ids = [] ∧ (∀ c, (s.caches c).task = none) ∧ s.running = none
+  sdOk : s.shutdown = true → (∀ c, (s.caches c).task = none) ∧ s.running = none
   timeOk : ∀ c dl, (s.caches c).task = some dl → s.now ≤ dl
 
 theorem inv_init : Inv init := by
@@ -132,10 +148,9 @@ theorem step_inv (s : St) (e : Ev) (h : Inv s) : Inv (step s e).1 := by
     | none => simpa using h
     | some c =>
       have hc := h.idsOk _ _ hl
-      have hcp := cancelPending_task (s := { s with ids := erase (p, num) s.ids }) (c := c) hc.2.2
-      simp only [hcp]
       obtain ⟨h1, h2, h3, h4, h5⟩ := h
-      constructor <;> simp only [lookup_erase, upd_apply] <;> grind
+      constructor <;> simp only [cancelPending_caches, cancelPending_ids, cancelPending_n, cancelPending_shutdown,
+        cancelPending_running, cancelPending_now, lookup_erase, upd_apply] <;> grind
   | get p num => exact h
   | enter t fs =>
     obtain ⟨h1, h2, h3, h4, h5⟩ := h
@@ -198,25 +213,45 @@ theorem step_inv (s : St) (e : Ev) (h : Inv s) : Inv (step s e).1 := by
     · exact h
     · obtain ⟨h1, h2, h3, h4, h5⟩ := h
       constructor <;> simp only [upd_apply, Cache.ident] at * <;> grind
+  | tmShutdown =>
+    simp only [step]
+    cases hrun : s.running with
+    | some r => simpa using h
+    | none =>
+      simp only [Option.isSome_none, Bool.false_eq_true, if_false]
+      obtain ⟨h1, h2, h3, h4, h5⟩ := h
+      split
+      · exact ⟨h1, h2, h3, h4, h5⟩
+      · constructor <;> simp only [Cache.ident] at * <;> grind
 
 /-! ### counting resolutions -/
 
-def outN (s : St) (c : Nat) : Nat := if (s.caches c).task.isSome = true then 1 else 0
+/-- 1 if the table holds cache c under its own identity -/
+def outN (s : St) (c : Nat) : Nat := if lookup (s.caches c).ident s.ids = some c then 1 else 0
 def resN (r : Reply) (c : Nat) : Nat := if r = .claimed c ∨ r = .timedOut c then 1 else 0
 def addN (r : Reply) (c : Nat) : Nat := if r = .added c then 1 else 0
 
-theorem mk_count (s : St) (p num : Nat) (d : Option Nat) (cls : Nat) (ks : List Bool) (c : Nat) (h : Inv s) :
+def isDrop : Ev → Bool
+  | .clear => true
+  | .shutdown => true
+  | _ => false
+
+macro "count_simp" : tactic =>
+  `(tactic| simp only [resN, addN, outN, upd_apply, lookup_cons, lookup_erase, lookup_nil, Cache.ident,
+      Cache.cancelFuts, Cache.completeFuts, cancelPending_caches, cancelPending_ids] at *)
+
+theorem mk_count_eq (s : St) (p num : Nat) (d : Option Nat) (cls : Nat) (ks : List Bool) (c : Nat) (h : Inv s) :
     resN (mkCache s p num d cls ks).2 c + outN (mkCache s p num d cls ks).1 c
-      ≤ addN (mkCache s p num d cls ks).2 c + outN s c := by
-  have hf := h.fresh_none
+      = addN (mkCache s p num d cls ks).2 c + outN s c := by
+  obtain ⟨h1, h2, h3, h4, h5⟩ := h
   unfold mkCache
   split
   · simp [resN, addN]
-  · simp only [resN, addN, outN, upd_apply]; grind
+  · count_simp; grind
 
-theorem step_count (s : St) (e : Ev) (c : Nat) (h : Inv s) :
-    resN (step s e).2 c + outN (step s e).1 c ≤ addN (step s e).2 c + outN s c := by
-  have hf := h.fresh_none
+/-- every event except clear/shutdown keeps `resolutions + registered = registrations + registered-before` exact -/
+theorem step_count_eq (s : St) (e : Ev) (c : Nat) (h : Inv s) (hd : isDrop e = false) :
+    resN (step s e).2 c + outN (step s e).1 c = addN (step s e).2 c + outN s c := by
   cases e with
   | tick t =>
     simp only [step]
@@ -225,63 +260,78 @@ theorem step_count (s : St) (e : Ev) (c : Nat) (h : Inv s) :
     split
     · simp [resN, addN]
     split <;> simp [resN, addN, outN]
-  | mk p num d cls ks => exact mk_count s p num d cls ks c h
+  | mk p num d cls ks => exact mk_count_eq s p num d cls ks c h
   | mkRandom p cands d cls ks =>
     simp only [step]
     split
     · simp [resN, addN]
-    · exact mk_count s p _ d cls ks c h
+    · exact mk_count_eq s p _ d cls ks c h
   | add c0 =>
     obtain ⟨h1, h2, h3, h4, h5⟩ := h
     simp only [step]
     repeat' split
-    all_goals simp only [resN, addN, outN, upd_apply, Cache.cancelFuts] <;> grind
+    all_goals count_simp <;> grind
   | pop p num =>
+    obtain ⟨h1, h2, h3, h4, h5⟩ := h
     simp only [step]
-    cases hl : lookup (p, num) s.ids with
-    | none => simp [resN, addN]
-    | some c0 =>
-      have hc := h.idsOk _ _ hl
-      have hcp := cancelPending_task (s := { s with ids := erase (p, num) s.ids }) (c := c0) hc.2.2
-      simp only [hcp, resN, addN, outN, upd_apply]; grind
+    split
+    · simp [resN, addN]
+    · count_simp; grind
   | get p num => simp [step, resN, addN]
   | enter t fs => simp only [step, resN, addN, outN]; grind
   | exit => simp only [step, resN, addN, outN]; grind
   | fireBegin c0 =>
+    obtain ⟨h1, h2, h3, h4, h5⟩ := h
     simp only [step]
     repeat' split
-    all_goals simp only [resN, addN, outN, upd_apply] <;> grind
+    all_goals count_simp <;> grind
   | fireEnd =>
     simp only [step]
     split
     · simp [resN, addN]
-    · simp only [resN, addN, outN, upd_apply, Cache.completeFuts]; grind
+    · count_simp; grind
   | fireAbort =>
     simp only [step]
     split
     · simp [resN, addN]
-    · simp only [resN, addN, outN, upd_apply, Cache.completeFuts]; grind
-  | clear => simp only [step, resN, addN, outN]; grind
-  | shutdown =>
+    · count_simp; grind
+  | clear => simp [isDrop] at hd
+  | shutdown => simp [isDrop] at hd
+  | tmShutdown =>
     simp only [step]
-    split
-    · simp [resN, addN]
-    · simp only [resN, addN, outN]; grind
+    repeat' split
+    all_goals count_simp <;> grind
   | futSet c0 i =>
     simp only [step]
     split
     · simp [resN, addN]
-    · simp only [resN, addN, outN, upd_apply]; grind
+    · count_simp; grind
   | futCancel c0 i =>
     simp only [step]
     split
     · simp [resN, addN]
-    · simp only [resN, addN, outN, upd_apply]; grind
+    · count_simp; grind
   | regFut c0 k =>
     simp only [step]
     split
     · simp [resN, addN]
-    · simp only [resN, addN, outN, upd_apply]; grind
+    · count_simp; grind
+
+/-- clear/shutdown only ever remove registrations -/
+theorem step_count_drop (s : St) (e : Ev) (c : Nat) (hd : isDrop e = true) :
+    resN (step s e).2 c = 0 ∧ addN (step s e).2 c = 0 ∧ outN (step s e).1 c ≤ outN s c := by
+  cases e <;> simp [isDrop] at hd
+  · simp [step, resN, addN, outN]
+  · simp only [step]
+    split
+    · simp [resN, addN]
+    · simp [resN, addN, outN]
+
+theorem step_count (s : St) (e : Ev) (c : Nat) (h : Inv s) :
+    resN (step s e).2 c + outN (step s e).1 c ≤ addN (step s e).2 c + outN s c := by
+  cases hde : isDrop e with
+  | false => exact Nat.le_of_eq (step_count_eq s e c h hde)
+  | true => have := step_count_drop s e c hde; omega
 
 /-! ### histories -/
 
@@ -362,7 +412,7 @@ theorem run_shutdown_mono (s : St) (evs : List Ev) (h : s.shutdown = true) : (fi
 /-- in a shut-down state (with the invariant) no event is answered by `timedOut` or `added` -/
 theorem step_after_shutdown (s : St) (e : Ev) (h : Inv s) (hs : s.shutdown = true) (c : Nat) :
     (step s e).2 ≠ .timedOut c ∧ (step s e).2 ≠ .added c := by
-  obtain ⟨hi, ht, hr⟩ := h.sdOk hs
+  obtain ⟨ht, hr⟩ := h.sdOk hs
   cases e <;> simp only [step, mkCache, cancelPending] <;> repeat' split
   all_goals simp_all
 
@@ -375,6 +425,18 @@ theorem run_after_shutdown (s : St) (evs : List Ev) (h : Inv s) (hs : s.shutdown
     have h2 := ih _ (step_inv s e h) (step_shutdown_mono s e hs)
     simp only [trace_cons, List.mem_cons, not_or]
     exact ⟨⟨fun e => h1.1 e.symm, h2.1⟩, ⟨fun e => h1.2 e.symm, h2.2⟩⟩
+
+/-- once `RequestCache.shutdown` has emptied the table it stays empty (nothing can be registered any more) -/
+theorem step_empty_after_shutdown (s : St) (e : Ev) (hs : s.shutdown = true) (hi : s.ids = []) :
+    (step s e).1.ids = [] := by
+  cases e <;> simp only [step, mkCache, cancelPending] <;> repeat' split
+  all_goals simp_all [erase]
+
+theorem run_empty_after_shutdown (s : St) (evs : List Ev) (hs : s.shutdown = true) (hi : s.ids = []) :
+    (final s evs).ids = [] := by
+  induction evs generalizing s with
+  | nil => exact hi
+  | cons e es ih => exact ih _ (step_shutdown_mono s e hs) (step_empty_after_shutdown s e hs hi)
 
 theorem complete_not_pending (f : Fut) : (Fut.complete f).st ≠ .pending := by
   unfold Fut.complete; split <;> simp_all; split <;> simp
@@ -426,85 +488,6 @@ theorem add_accepted {s : St} {c c' : Nat} (h : (step s (.add c)).2 = .added c')
         refine ⟨h.symm, by omega, ?_, ?_, ht, ?_⟩ <;> simp
 
 /-! ### exact counting when nothing is dropped -/
-
-def isDrop : Ev → Bool
-  | .clear => true
-  | .shutdown => true
-  | _ => false
-
-theorem mk_count_eq (s : St) (p num : Nat) (d : Option Nat) (cls : Nat) (ks : List Bool) (c : Nat) (h : Inv s) :
-    resN (mkCache s p num d cls ks).2 c + outN (mkCache s p num d cls ks).1 c
-      = addN (mkCache s p num d cls ks).2 c + outN s c := by
-  have hf := h.fresh_none
-  unfold mkCache
-  split
-  · simp [resN, addN]
-  · simp only [resN, addN, outN, upd_apply]; grind
-
-theorem step_count_eq (s : St) (e : Ev) (c : Nat) (h : Inv s) (hd : isDrop e = false) :
-    resN (step s e).2 c + outN (step s e).1 c = addN (step s e).2 c + outN s c := by
-  have hf := h.fresh_none
-  cases e with
-  | tick t =>
-    simp only [step]
-    split
-    · simp [resN, addN]
-    split
-    · simp [resN, addN]
-    split <;> simp [resN, addN, outN]
-  | mk p num d cls ks => exact mk_count_eq s p num d cls ks c h
-  | mkRandom p cands d cls ks =>
-    simp only [step]
-    split
-    · simp [resN, addN]
-    · exact mk_count_eq s p _ d cls ks c h
-  | add c0 =>
-    obtain ⟨h1, h2, h3, h4, h5⟩ := h
-    simp only [step]
-    repeat' split
-    all_goals simp only [resN, addN, outN, upd_apply, Cache.cancelFuts, nameTaken] at * <;> grind
-  | pop p num =>
-    simp only [step]
-    cases hl : lookup (p, num) s.ids with
-    | none => simp [resN, addN]
-    | some c0 =>
-      have hc := h.idsOk _ _ hl
-      have hcp := cancelPending_task (s := { s with ids := erase (p, num) s.ids }) (c := c0) hc.2.2
-      simp only [hcp, resN, addN, outN, upd_apply]; grind
-  | get p num => simp [step, resN, addN]
-  | enter t fs => simp only [step, resN, addN, outN]; grind
-  | exit => simp only [step, resN, addN, outN]; grind
-  | fireBegin c0 =>
-    simp only [step]
-    repeat' split
-    all_goals simp only [resN, addN, outN, upd_apply] <;> grind
-  | fireEnd =>
-    simp only [step]
-    split
-    · simp [resN, addN]
-    · simp only [resN, addN, outN, upd_apply, Cache.completeFuts]; grind
-  | fireAbort =>
-    simp only [step]
-    split
-    · simp [resN, addN]
-    · simp only [resN, addN, outN, upd_apply, Cache.completeFuts]; grind
-  | clear => simp [isDrop] at hd
-  | shutdown => simp [isDrop] at hd
-  | futSet c0 i =>
-    simp only [step]
-    split
-    · simp [resN, addN]
-    · simp only [resN, addN, outN, upd_apply]; grind
-  | futCancel c0 i =>
-    simp only [step]
-    split
-    · simp [resN, addN]
-    · simp only [resN, addN, outN, upd_apply]; grind
-  | regFut c0 k =>
-    simp only [step]
-    split
-    · simp [resN, addN]
-    · simp only [resN, addN, outN, upd_apply]; grind
 
 theorem run_count_eq (s : St) (evs : List Ev) (c : Nat) (h : Inv s) (hd : ∀ e ∈ evs, isDrop e = false) :
     (trace s evs).count (.claimed c) + (trace s evs).count (.timedOut c) + outN (final s evs) c
